@@ -177,3 +177,7 @@ k("and-conditions-nested", ALL, "*", "", "", "every `if a and b:` without else w
 k("return-through-local", ALL, "*", "", "", "every `return <expr>` written `result_ = <expr>; return result_`", transform="return-temp")
 k("no-else-after-jump", ALL, "*", "", "", "else branches after return/raise/continue/break dedented (pylint no-else-return)", transform="no-else-return")
 k("comprehensions-as-loops", ALL, "*", "", "", "list comprehensions assigned to a local written as append loops (where the loop variable cannot clash)", transform="comp-to-loop")
+k("de-morgan", ALL, "*", "", "", "every `not (a or b)` / `not (a and b)` distributed", transform="demorgan")
+k("is-not-as-not-is", ALL, "*", "", "", "every `x is not y` / `x not in y` written `not (x is y)` / `not (x in y)`", transform="negated-compare")
+k("conditional-expressions-as-statements", ALL, "*", "", "", "every `x = a if c else b` / `return a if c else b` written as an if statement", transform="ternary-to-if")
+k("if-statements-as-conditional-expressions", ALL, "*", "", "", "every two-armed if assigning one name (or returning) written as a conditional expression", transform="if-to-ternary")
